@@ -39,17 +39,18 @@ var frag = promqlgen.Alphabet{
 }
 
 var (
-	chainOps   = []string{"and", "unless", "*", "=="}
-	chainRight = []string{"bar", "sum(bar)", "sum by(a) (bar)", "vector(1)", "sum by(a, b) (bar)"}
-	chainUnary = []string{"sum(%s)", "sum by(a) (%s)", "sum without(a) (%s)", "abs(%s)", "min by(b) (%s)", "%s > 0"}
-	aggOuter   = []string{"sum without(a) (%s)", "sum without(b) (%s)", "sum by(a) (%s)", "sum(%s)", "min by(b) (%s)"}
-	orAlts     = []string{"foo", `foo{a="x"}`, "sum(foo)", "sum by(a) (foo)", "vector(1)"}
-	orRight    = []string{"bar", `bar{a="x"}`, "sum(bar)", "sum by(a) (bar)", "vector(1)"}
-	reOps      = []string{"and", "unless", "*"}
-	reMod1     = []string{"", "on(a)", "ignoring(b)", "on(a, a)"}
-	reAgg      = []string{"sum without(a) (%s)", "sum without(a, a) (%s)", "sum by(b) (%s)", "sum by(b, b) (%s)", "sum by(a, b) (%s)", "min without(a, c) (%s)", "sum(%s)"}
-	reMod2     = []string{"on(b) group_left(a)", "on(b) group_left(a, a)", "ignoring(a) group_left(a)", "ignoring(a, a) group_left(a)", "ignoring(a, c) group_left(a)", "on(b) group_left()", "on(b, b) group_left(a)", "on(b) group_right(a)", "on(b) group_left(a, c)", "on(b) group_left(c, a)"}
-	reSel3     = []string{"foo", "bar", `foo{a="x"}`}
+	chainOps     = []string{"and", "unless", "*", "=="}
+	chainRight   = []string{"bar", "sum(bar)", "sum by(a) (bar)", "vector(1)", "sum by(a, b) (bar)"}
+	chainUnary   = []string{"sum(%s)", "sum by(a) (%s)", "sum without(a) (%s)", "abs(%s)", "min by(b) (%s)", "%s > 0"}
+	aggOuter     = []string{"sum without(a) (%s)", "sum without(b) (%s)", "sum by(a) (%s)", "sum(%s)", "min by(b) (%s)"}
+	orAlts       = []string{"foo", `foo{a="x"}`, "sum(foo)", "sum by(a) (foo)", "vector(1)"}
+	orRight      = []string{"bar", `bar{a="x"}`, "sum(bar)", "sum by(a) (bar)", "vector(1)"}
+	richMatchers = []string{"", `a="x"`, `a=~".*"`, `a=~"x|"`, `a=~"(x)?"`, `a=~".+"`, `a=""`, `a=~""`, `a!=""`, `a!~"x"`, `a!~""`, `a=~"x|y", b=~".*"`}
+	reOps        = []string{"and", "unless", "*"}
+	reMod1       = []string{"", "on(a)", "ignoring(b)", "on(a, a)"}
+	reAgg        = []string{"sum without(a) (%s)", "sum without(a, a) (%s)", "sum by(b) (%s)", "sum by(b, b) (%s)", "sum by(a, b) (%s)", "min without(a, c) (%s)", "sum(%s)"}
+	reMod2       = []string{"on(b) group_left(a)", "on(b) group_left(a, a)", "ignoring(a) group_left(a)", "ignoring(a, a) group_left(a)", "ignoring(a, c) group_left(a)", "on(b) group_left()", "on(b, b) group_left(a)", "on(b) group_right(a)", "on(b) group_left(a, c)", "on(b) group_left(c, a)"}
+	reSel3       = []string{"foo", "bar", `foo{a="x"}`}
 	// a small alphabet for all expressions of <=3 operator nodes (thorough)
 	mini = promqlgen.Alphabet{
 		Metrics:   []string{"foo", "bar"},
@@ -343,7 +344,7 @@ func class(reason, expr string) string {
 func body(c *explore.Chooser) *explore.Case {
 	var e promqlgen.Expr
 	var ok bool
-	subs := []string{"ops1", "wrapped", "chain", "reinclude", "orjoin", "aggjoin"}
+	subs := []string{"ops1", "wrapped", "chain", "reinclude", "orjoin", "aggjoin", "matchers"}
 	if tier == "thorough" {
 		subs = append(subs, "ops2", "mini3")
 	}
@@ -404,6 +405,22 @@ func body(c *explore.Chooser) *explore.Case {
 			inner = sel3 + " * " + mod2 + " " + fmt.Sprintf(agg, "bar")
 		}
 		e = promqlgen.Expr{Text: sel + " " + op + " " + mod1 + " (" + inner + ")", Metrics: map[string]bool{"foo": true, "bar": true}, Ops: 3}
+		ok = true
+	case "matchers":
+		// W(foo{M1}) OP MOD bar{M2} over matchers that do and do not admit the empty value (added after seed C12_4:
+		// `a=~".*"` admits "" but selects series that carry a)
+		m1 := richMatchers[c.Free(len(richMatchers), "m1")]
+		m2 := richMatchers[c.Free(len(richMatchers), "m2")]
+		w := []string{"%s", "sum by(a) (%s)"}[c.Free(2, "w")]
+		op := append([]string{"or"}, chainOps...)[c.Free(len(chainOps)+1, "op")]
+		mod := frag.Modifiers[c.Free(len(frag.Modifiers), "mod")]
+		sel := func(metric, m string) string {
+			if m == "" {
+				return metric
+			}
+			return metric + "{" + m + "}"
+		}
+		e = promqlgen.Expr{Text: fmt.Sprintf(w, sel("foo", m1)) + " " + op + " " + mod + " " + sel("bar", m2), Metrics: map[string]bool{"foo": true, "bar": true}, Ops: 2}
 		ok = true
 	case "orjoin":
 		// (L1 or L2) OP MOD R, both orientations: one side has several sources, the other joins only some
@@ -512,7 +529,7 @@ func body(c *explore.Chooser) *explore.Case {
 func main() {
 	explore.Main(&explore.Config{
 		Property: "C12", Level: "exploration",
-		Rule:        "expressions of the property's fragment (selectors x 4 matcher sets, label-preserving functions, aggregations by/without, arithmetic/comparison/set operators x 9 matching modifiers, numbers and vector(n) operands): all with <=1 operator node, every unary wrapper around every <=1-operator expression, and the 3-operator shapes chain (U2(U1(sel)) op mod R, both orientations) reinclude (sel op mod1 (agg(bar) * mod2 sel3), label lists with repeated names), orjoin ((L1 or L2) op mod R, both orientations) and aggjoin (agg(sel op mod R)), the verdict being taken on a rule that has been analysed once before as in the real pipeline (thorough: also all with <=2 operator nodes of a reduced fragment - 3 matcher sets, 6 wrappers, 6 operators, 6 modifiers - and all with <=3 operator nodes of a small alphabet; both complete, not time-capped); for every 'dead code in query' problem of the real promql/impossible check, every binary operation the flagged position can belong to is evaluated by the vendored engine on EVERY database of <=2 series in which each series carries all labels a,b,c (values x|y) with constant values 0|1|2; a candidate is an enclosing binary operation B plus the flagged source X (the operand holding the position, or an `or` alternative of it holding the position); (B,X) is refuted on a database where B returns something and differs (labels and values) from B with X replaced by a selector matching nothing; the report is a false positive iff every candidate is refuted on some database",
+		Rule:        "expressions of the property's fragment (selectors x 4 matcher sets, label-preserving functions, aggregations by/without, arithmetic/comparison/set operators x 9 matching modifiers, numbers and vector(n) operands): all with <=1 operator node, every unary wrapper around every <=1-operator expression, and the 3-operator shapes chain (U2(U1(sel)) op mod R, both orientations) reinclude (sel op mod1 (agg(bar) * mod2 sel3), label lists with repeated names), orjoin ((L1 or L2) op mod R, both orientations), aggjoin (agg(sel op mod R)) and matchers (W(foo{M1}) op mod bar{M2} over 12 matcher sets that do / do not admit the empty value: =~\".*\", =~\"x|\", =~\"(x)?\", =~\".+\", =\"\", =~\"\", !=\"\", !~...), the verdict being taken on a rule that has been analysed once before as in the real pipeline (thorough: also all with <=2 operator nodes of a reduced fragment - 3 matcher sets, 6 wrappers, 6 operators, 6 modifiers - and all with <=3 operator nodes of a small alphabet; both complete, not time-capped); for every 'dead code in query' problem of the real promql/impossible check, every binary operation the flagged position can belong to is evaluated by the vendored engine on EVERY database of <=2 series in which each series carries all labels a,b,c (values x|y) with constant values 0|1|2; a candidate is an enclosing binary operation B plus the flagged source X (the operand holding the position, or an `or` alternative of it holding the position); (B,X) is refuted on a database where B returns something and differs (labels and values) from B with X replaced by a selector matching nothing; the report is a false positive iff every candidate is refuted on some database",
 		Assumptions: []string{"a dead Source carries a position but not the operation that killed it, so all enclosing binary operations are candidates and a report only counts as false when all are refuted (never alarms on a correct report)", "engine over our in-memory storage is the truth"},
 		Spaces:      []*explore.Space{{Name: "expressions", Body: body, Setup: setup, Bound: func(string) int { return -1 }}},
 		BudgetS: func(t string) int {
